@@ -112,10 +112,16 @@ func (it *Interp) fsLog(kind string, mut bool, p, p2 *StrV, off *Term, data []*T
 	if it.job.OnFSEffect != nil {
 		it.job.OnFSEffect(it, e)
 	}
+	if it.onFSEffect != nil {
+		it.onFSEffect(it, e)
+	}
 }
 
 // fault: when fault injection is on, each call may fail.
 func (it *Interp) fsFault(op string) *IfaceV {
+	if it.fsFaultsOff {
+		return nil
+	}
 	if it.fs.faults || (it.job.FSFaults != nil && it.job.FSFaults(op)) {
 		if it.branch(it.fresh("fsfault_"+op, SBool), "fsfault") {
 			return it.fsErr("fault", op+": injected I/O error")
